@@ -36,11 +36,11 @@ ENTRIES = {
         "note": "Collision-freeness and leaf/inner domain separation of SHA-256 are the trusted base (that is what "
                 "makes term equality = digest equality). Exhaustive for the listed mutation families in trees up to "
                 "9 (17) leaves; the quantifier's 1..300 leaf lists are not reached exhaustively (tree shape recursion is "
-                "covered by all sizes up to 17, i.e. every split pattern of depth <= 5). Honest MerkleProof acceptance "
-                "for non-DAH sizes is compared as drift only (the statement demands completeness for row/share proofs "
-                "only). For share proofs the model contributes the case space, the counting checks and the verdict "
-                "table; NMT hashing itself is treated as injective. Known finding: a proof verified with another "
-                "`total` of the same path shape is accepted (inherent to opaque-sibling RFC-6962 proofs whose root "
+                "covered by all sizes up to 17, i.e. every split pattern of depth <= 5). The unmutated honest proof of every (total, index), powers of two or not, must verify. For share proofs the model contributes the case space, the counting checks and the verdict "
+                "table; NMT hashing itself is treated as injective. TLC also checks that with unchanged aunts the algorithm accepts a claimed (index,total) iff it walks "
+                "the same left/right turns as the honest pair (AcceptIffSamePath) and that the statement allows none of "
+                "them. Known finding: a proof verified with another "
+                "`total` of the same path shape (same turns, same number of aunts) is accepted (inherent to opaque-sibling RFC-6962 proofs whose root "
                 "is not bound to the leaf count).",
         "technique": "TLA+ symbolic-crypto model + TLC exhaustive case/verdict generation replayed into Rust",
     },
